@@ -488,7 +488,8 @@ def run_check(spec, tier='quick', seed=0, jobs=None, keep=False, verbose=True):
                         rep = x['tag'] in (r.get('failures') or [])
                     else:
                         rep = r.get('panic') is not None
-                    if r.get('assume_violated'):
+                    # (an assumption violated natively ends the run, so a failure recorded before it stands)
+                    if r.get('assume_violated') and x['kind'] != 'assert':
                         rep = False
                     x['native'] = r
                     if rep:
